@@ -288,8 +288,33 @@ static int local_insert_existing(const Args& a) {
   return compare(c, ref, "insert on an existing key");
 }
 
+// the operations called with their default arguments
+static int defaults() {
+  LRUSet<int> s;
+  s.insert(1);
+  s.emplace(2);
+  RCHECK(s.size() == 0 && s.count() == 2, "LRUSet::insert(k)/emplace(k) count size 0: size() = %zu", s.size());
+  s.insert(1, 10);
+  s.insert(2, 20);
+  s.touch(1);
+  RCHECK(s.size() == 30, "LRUSet::touch(k) changed the size: size() = %zu, expected 30", s.size());
+  RCHECK(s.peek().first == 2, "LRUSet::touch(k) did not refresh recency");
+  LRUMap<int, int> m;
+  m.insert(1, 100);
+  m.emplace(2, 200);
+  RCHECK(m.size() == 2 && m.count() == 2, "LRUMap::insert(k, v)/emplace(k, v) count size 1 each: size() = %zu", m.size());
+  m.touch(1);
+  RCHECK(m.size() == 2, "LRUMap::touch(k) changed the size: size() = %zu", m.size());
+  m.change_size(2, 5);
+  RCHECK(m.size() == 6, "size() = %zu after change_size(2, 5), expected 6", m.size());
+  auto e = m.evict_object();
+  RCHECK(e.key == 1, "LRUMap::change_size(k, s) did not refresh recency: evicted key %d, expected 1", e.key);
+  return 0;
+}
+
 int main(int argc, char** argv) {
   Args a(argc, argv);
+  if (a.mode == "defaults") return defaults();
   if (a.extra.empty()) return 2;
   bool map = a.extra[0] == "LRUMap";
   if (a.mode == "local_insert_existing") return map ? local_insert_existing<MapC>(a) : local_insert_existing<SetC>(a);
